@@ -45,6 +45,8 @@ def passing_tests(wt):
 
 def main():
   src, prop, sid = sys.argv[1], sys.argv[2], sys.argv[3]
+  harmless = '--harmless' in sys.argv    # a behaviour-preserving refactoring: the demonstration must pass with the change too
+  kind_dir = 'harmless' if harmless else 'seeded'
   patch = os.path.join(src, 'patch.diff')
   demo = os.path.join(src, 'demo.py')
   notes = open(os.path.join(src, 'notes.txt')).read() if os.path.exists(os.path.join(src, 'notes.txt')) else ''
@@ -59,7 +61,7 @@ def main():
   import re
   paras = [p_ for p_ in re.split(r'\n+', notes) if re.match(r'(?i)\s*(what is needed|needed|input needed|what it needs)', p_)] or \
       [p_ for p_ in re.split(r'\n+', notes) if re.search(r'(?i)need|manifest', p_)] or ['(see notes)']
-  meta = {'seed': sid, 'property': prop, 'needs_to_manifest': paras[0].strip(), 'ran': [],
+  meta = {'seed': sid, 'property': prop, 'kind': 'harmless refactoring (the property still holds)' if '--harmless' in sys.argv else 'breaking change', 'needs_to_manifest': paras[0].strip(), 'ran': [],
           'confirmed_in': 'a fresh scratch git worktree of /repo under /tmp (tools/seed_ingest.py), removed afterwards', 'notes': notes.strip()}
   ok = True
   try:
@@ -88,11 +90,11 @@ def main():
       ok = False
     if ok:
       body = sorted(l for l in open(patch).read().splitlines() if l[:1] in '+-' and not l.startswith(('+++', '---')))
-      for other in sorted(os.listdir(os.path.join(VERIF, 'seeded'))):
-        op = os.path.join(VERIF, 'seeded', other, 'patch.diff')
+      for other in sorted(os.listdir(os.path.join(VERIF, kind_dir))) if os.path.isdir(os.path.join(VERIF, kind_dir)) else []:
+        op = os.path.join(VERIF, kind_dir, other, 'patch.diff')
         if other != sid and os.path.isfile(op):
           if sorted(l for l in open(op).read().splitlines() if l[:1] in '+-' and not l.startswith(('+++', '---'))) == body:
-            print('DUPLICATE: same edit as seeded/%s; not kept' % other)
+            print('DUPLICATE: same edit as %s/%s; not kept' % (kind_dir, other))
             ok = False
             break
     if ok:
@@ -104,8 +106,11 @@ def main():
       d1 = run_demo(wt, '_demo.py')
       meta['ran'].append('demo with the change: exit %d' % d1.returncode)
       meta['demo_output_with_change'] = (d1.stdout + d1.stderr)[-800:]
-      if d1.returncode == 0:
+      if d1.returncode == 0 and not harmless:
         print('REJECT: demo still passes with the change')
+        ok = False
+      if d1.returncode != 0 and harmless:
+        print('REJECT: the property demonstration fails with the supposedly harmless change\n' + (d1.stdout + d1.stderr)[-600:])
         ok = False
     if ok:
       passed = passing_tests(wt)
@@ -121,7 +126,7 @@ def main():
     shutil.rmtree(wt, ignore_errors=True)
   if not ok:
     return 1
-  dst = os.path.join(VERIF, 'seeded', sid)
+  dst = os.path.join(VERIF, kind_dir, sid)
   os.makedirs(dst, exist_ok=True)
   open(os.path.join(dst, 'patch.diff'), 'w').write(kept_patch)
   shutil.copy(demo, os.path.join(dst, 'demo.py'))
